@@ -24,6 +24,10 @@ mod matrix;
 mod select;
 mod source;
 
+#[cfg(pendulum_project_ntpd_rs_verif)]
+#[path = "/verif/hooks/ntp_proto_kalman.rs"]
+pub mod verif_hook;
+
 pub use source::{KalmanSourceController, TwoWayKalmanSourceController};
 
 fn sqr(x: f64) -> f64 {
